@@ -541,6 +541,120 @@ Section ExecProofs.
     apply balanced_preserved; assumption.
   Qed.
 
+  (** one unfolding of EVM.Call's model, with the mutually defined functions folded back *)
+  Lemma call_unfold fuel depth hint ps caller addr input gas value s :
+    CALL (S fuel) depth hint ps caller addr input gas value s =
+      let s := SAVE s caller (Some addr) input value gas in
+      let idx := current_index (tc (xt s)) in
+      let finish := fun (p : cres * xst) => Some (fst p, EXIT (snd p) (fst p)) in
+      if Nat.ltb max_depth depth then finish (mk [] gas (Some (VOther "max call depth exceeded")), s)
+      else if negb (value =? 0) && negb (can_transfer (xw s) caller value)
+      then finish (mk [] gas (Some (VOther "insufficient balance for transfer")), s)
+      else
+        let w0 := xw s in
+        let isp := is_precompile addr in
+        if negb (exists_acct w0 addr) && negb isp && is_eip158 && (value =? 0) then
+          let s := DOPEN s depth 0xf1 caller addr false input gas (Some value) in
+          let s := DCLOSE s depth (mk [] gas None) gas gas in
+          finish (mk [] gas None, s)
+        else
+          let s := if exists_acct w0 addr then s else set_w W s (create_account w0 addr) in
+          let s := TRANSFER s caller addr value in
+          let s := DOPEN s depth 0xf1 caller addr false input gas (Some value) in
+          let close := fun (r : cres) (gas_var : N) (s : xst) => finish (r, DCLOSE s depth r gas gas_var) in
+          if isp then
+            let r := precompile addr (if artela then Some caller else None) input gas in
+            let '(r', s') := tail W w0 r s in close r' (r_gas r') s'
+          else
+            let code := code_of (xw s) addr in
+            match code with
+            | [] => close (mk [] gas None) gas s
+            | _ =>
+              let jp := artela && jp_on in
+              let p0 := {| j_from := caller; j_to := addr; j_index := idx; j_data := input; j_value := value; j_gas := gas;
+                           j_ret := []; j_errtext := ""%string |} in
+              let '(pret, pgas, perr, s) :=
+                  if jp then JP true caller addr input value p0 gas s else ([], gas, None, s) in
+              match perr with
+              | Some e =>
+                let r := pre_fail pret pgas e in
+                close r (r_gas r) (set_w W s w0)
+              | None =>
+                let fc := {| f_self := addr; f_code_addr := addr; f_caller := caller; f_value := value; f_input := input;
+                             f_code := code; f_static := ps; f_create := false |} in
+                match RUNF fuel depth hint fc pgas s with
+                | None => None
+                | Some (r, s) =>
+                  let '(r, s) :=
+                      if jp then
+                        let p1 := {| j_from := caller; j_to := addr; j_index := idx; j_data := input; j_value := value;
+                                     j_gas := r_gas r; j_ret := r_ret r;
+                                     j_errtext := match r_err r with Some e => verr_text e | None => ""%string end |} in
+                        let '(qret, qgas, qerr, s) := JP false caller addr input value p1 (r_gas r) s in
+                        (post_merge r qret qgas qerr, s)
+                      else (r, s) in
+                  let '(r', s') := tail W w0 r s in close r' (r_gas r') s'
+                end
+              end
+            end.
+  Proof. reflexivity. Qed.
+
+  (** * C05 — the join points of a call: once before the callee with the call's own data, once after it with its
+      result, nothing when the first one fails.  For a CALL that passes the entry checks and reaches code: *)
+  Theorem call_join_points_shape fuel depth hint ps caller addr input gas value s r s' :
+    CALL (S fuel) depth hint ps caller addr input gas value s = Some (r, s') ->
+    let s1 := SAVE s caller (Some addr) input value gas in
+    let s2 := if exists_acct (xw s1) addr then s1 else set_w W s1 (create_account (xw s1) addr) in
+    let s3 := DOPEN (TRANSFER s2 caller addr value) depth 0xf1 caller addr false input gas (Some value) in
+    Nat.ltb max_depth depth = false ->
+    negb (value =? 0) && negb (can_transfer (xw s1) caller value) = false ->
+    negb (exists_acct (xw s1) addr) && negb (is_precompile addr) && is_eip158 && (value =? 0) = false ->
+    is_precompile addr = false ->
+    code_of (xw s3) addr <> [] ->
+    artela && jp_on = true ->
+    let idx := current_index (tc (xt s1)) in
+    let p0 := {| j_from := caller; j_to := addr; j_index := idx; j_data := input; j_value := value; j_gas := gas;
+                 j_ret := []; j_errtext := ""%string |} in
+    exists pret pgas perr s4,
+      JP true caller addr input value p0 gas s3 = (pret, pgas, perr, s4) /\
+      match perr with
+      | Some e =>
+        (* the callee does not run, the post join point does not run *)
+        r = pre_fail pret pgas e /\ s' = EXIT (DCLOSE (set_w W s4 (xw s1)) depth r gas (r_gas r)) r
+      | None =>
+        let fc := {| f_self := addr; f_code_addr := addr; f_caller := caller; f_value := value; f_input := input;
+                     f_code := code_of (xw s3) addr; f_static := ps; f_create := false |} in
+        exists rb s5, RUNF fuel depth hint fc pgas s4 = Some (rb, s5) /\
+          let p1 := {| j_from := caller; j_to := addr; j_index := idx; j_data := input; j_value := value;
+                       j_gas := r_gas rb; j_ret := r_ret rb;
+                       j_errtext := match r_err rb with Some e => verr_text e | None => ""%string end |} in
+          exists qret qgas qerr s6 s7,
+            JP false caller addr input value p1 (r_gas rb) s5 = (qret, qgas, qerr, s6) /\
+            tail W (xw s1) (post_merge rb qret qgas qerr) s6 = (r, s7) /\
+            s' = EXIT (DCLOSE s7 depth r gas (r_gas r)) r
+      end.
+  Proof.
+    rewrite call_unfold. cbv beta zeta. intros E H1 H2 H3 H4 H5 H6.
+    rewrite H1, H2, H3, H4 in E.
+    destruct (code_of (xw (DOPEN (TRANSFER (if exists_acct (xw (SAVE s caller (Some addr) input value gas)) addr
+                                             then SAVE s caller (Some addr) input value gas
+                                             else set_w W (SAVE s caller (Some addr) input value gas)
+                                                        (create_account (xw (SAVE s caller (Some addr) input value gas)) addr))
+                                            caller addr value) depth 241 caller addr false input gas (Some value))) addr)
+      as [|c0 code] eqn:Ecode; [contradiction|].
+    rewrite H6 in E.
+    match type of E with context [match ?X with _ => _ end] => destruct X as [[[pret pgas] perr] s4] eqn:EP end.
+    exists pret, pgas, perr, s4. split; [reflexivity|].
+    destruct perr as [e|].
+    { inversion E; subst. cbn [fst snd]. split; reflexivity. }
+    match type of E with context [match ?X with _ => _ end] => destruct X as [[rb s5]|] eqn:ER end; [|discriminate].
+    exists rb, s5. split; [reflexivity|].
+    match type of E with context [match ?X with _ => _ end] => destruct X as [[[qret qgas] qerr] s6] eqn:EQ end.
+    match type of E with context [match ?X with _ => _ end] => destruct X as [r7 s7] eqn:ET end.
+    exists qret, qgas, qerr, s6, s7. inversion E; subst. cbn [fst snd].
+    split; [first [reflexivity|eassumption]|]. split; first [reflexivity|eassumption].
+  Qed.
+
   (** * C06 — gas through join points *)
 
   Lemma verr_of_text_oog : verr_of_text "out of gas" = VOog.
